@@ -498,8 +498,17 @@ def r4_reentry_guards(corpus: Corpus, rep: Report, tier: str):
             continue
         n_foreign += 1
         guard = _cycle_guard(fi, call)
-        if guard is True:
-            rep.ok("C01.R4", k, site, f"foreign text ({origin}) behind a paired in-progress guard")
+        weak = _weak_file_key(fi, call) if guard is True and origin.startswith("file content") else None
+        if guard is True and weak is not None:
+            rep.violation(
+                "C01.R4",
+                f"{fi.fq}|cycle-guard key of included files is not a normalised path",
+                weak[0],
+                f"the in-progress test `{weak[1]}` identifies the included file by `{weak[2]}`, which is not passed through normpath/abspath/realpath/resolve(): the same file reached "
+                "through a path with a redundant `sub/..` gets a different (ever longer) key at every level, the guard never fires and a self-including file recurses until RecursionError",
+            )
+        elif guard is True:
+            rep.ok("C01.R4", k, site, f"foreign text ({origin}) behind a paired in-progress guard" + (" keyed by a normalised path" if origin.startswith("file content") else ""))
         else:
             rep.violation(
                 "C01.R4",
@@ -623,6 +632,49 @@ def _cycle_guard(fi: FunctionInfo, call: ast.Call):
     if not tested:
         return "no membership test on the in-progress collection that leaves the function"
     return True
+
+
+_PATH_NORMALISERS = ("normpath", "abspath", "realpath", "resolve")
+
+
+def _normalises_path(e: ast.expr, fi: FunctionInfo, depth: int = 0) -> bool:
+    """The expression passes through a call that removes `..` / redundant separators (directly, through the locals it
+    is built from, or through a package function whose every return does)."""
+    if depth > 4:
+        return False
+    for x in ast.walk(e):
+        if isinstance(x, ast.Call):
+            nm = x.func.attr if isinstance(x.func, ast.Attribute) else (x.func.id if isinstance(x.func, ast.Name) else "")
+            if nm in _PATH_NORMALISERS:
+                return True
+            g = get_callgraph(_corpus_of(fi))
+            for t in g.flat_targets(g.resolve_call(x, fi)):
+                if t.is_lambda:
+                    continue
+                rets = [r for r in t.local_nodes() if isinstance(r, ast.Return) and r.value is not None]
+                if rets and all(_normalises_path(r.value, t, depth + 1) for r in rets):
+                    return True
+    for x in ast.walk(e):
+        if isinstance(x, ast.Name) and isinstance(x.ctx, ast.Load) and not fi.is_lambda and x.id not in fi.params:
+            defs = [n.value for n in fi.local_nodes() if isinstance(n, ast.Assign) and len(n.targets) == 1 and isinstance(n.targets[0], ast.Name) and n.targets[0].id == x.id]
+            if defs and all(_normalises_path(d, fi, depth + 1) for d in defs):
+                return True
+    return False
+
+
+def _weak_file_key(fi: FunctionInfo, call: ast.Call) -> tuple[str, str, str] | None:
+    """(site, test text, key text) when the membership test of the include guard uses a key that is not a normalised path."""
+    for st in sorted((s_ for s_ in walk_local(fi.node) if isinstance(s_, ast.If) and s_.lineno < call.lineno), key=lambda s_: s_.lineno):
+        if not (st.body and isinstance(st.body[-1], (ast.Return, ast.Raise))):
+            continue
+        from ..flow import facts as _atomic
+
+        for t, pol in _atomic(st.test, True):
+            if isinstance(t, ast.Compare) and len(t.ops) == 1 and isinstance(t.ops[0], ast.In) and pol and "document" in unparse(t.comparators[0]):
+                if not _normalises_path(t.left, fi):
+                    d = _single_def(fi, t.left) if isinstance(t.left, ast.Name) else t.left
+                    return (fi.module.site(st), unparse(t), short(d, 50))
+    return None
 
 
 def _context_manager_marker(fi: FunctionInfo, ce: ast.expr) -> tuple[str, bool] | None:
@@ -2474,9 +2526,282 @@ def r13_rebound_loop_key(corpus: Corpus, rep: Report, tier: str):
         rep.error("C01.R13", f"expected the package's loops over mapping items/keys to be scanned, found {n_loops}")
 
 
+# ---------------------------------------------------------------------------
+# R14 heading levels stay >= 1: every value that reaches the renderer's heading offset is non-negative
+#
+# ``level = int(token.tag[1]) + self._heading_offset``; update_section_level_state() looks for the closest level
+# *below* ``level`` (``max(... if level > section_level)`` over a table that starts with level 0), so a level <= 0
+# leaves nothing to take the maximum of: ValueError out of the parse.  The offset comes from the include option
+# ``heading-offset``: its converter must reject negative numbers.
+
+_NONNEG_CONVERTERS = ("nonnegative_int", "positive_int")
+
+
+def _nonneg(corpus: Corpus, e: ast.expr | None, fi: FunctionInfo, attr: str, depth: int = 0) -> tuple[str, str, ast.AST | None]:
+    """('ok'|'bad'|'unknown', reason, node)"""
+    if e is None or depth > 4:
+        return ("unknown", "no value", e)
+    if isinstance(e, ast.Constant) and isinstance(e.value, int) and not isinstance(e.value, bool):
+        return ("ok", "constant", e) if e.value >= 0 else ("bad", f"the constant {e.value} is negative", e)
+    if isinstance(e, ast.UnaryOp) and isinstance(e.op, ast.USub) and isinstance(e.operand, ast.Constant) and isinstance(e.operand.value, (int, float)):
+        return ("ok", "constant", e) if e.operand.value == 0 else ("bad", f"the constant -{e.operand.value} is negative", e)
+    if isinstance(e, ast.Attribute) and isinstance(e.value, ast.Name) and e.value.id == "self" and e.attr == attr:
+        return ("ok", "the offset itself", e)
+    if isinstance(e, ast.Call) and dotted(e.func) in ("abs", "len"):
+        return ("ok", dotted(e.func), e)
+    if isinstance(e, ast.Call) and dotted(e.func) == "max" and any(isinstance(a, ast.Constant) and isinstance(a.value, int) and a.value >= 0 for a in e.args):
+        return ("ok", "max(0, ..)", e)
+    # <..>.options.get("K", d) / <..>.options["K"]
+    key = None
+    dflt = None
+    if isinstance(e, ast.Call) and isinstance(e.func, ast.Attribute) and e.func.attr == "get" and (dotted(e.func.value) or "").split(".")[-1] == "options" and e.args and isinstance(e.args[0], ast.Constant):
+        key, dflt = e.args[0].value, (e.args[1] if len(e.args) > 1 else ast.Constant(None))
+    elif isinstance(e, ast.Subscript) and (dotted(e.value) or "").split(".")[-1] == "options" and isinstance(e.slice, ast.Constant):
+        key = e.slice.value
+    if key is not None:
+        if dflt is not None:
+            st, why, nd = _nonneg(corpus, dflt, fi, attr, depth + 1)
+            if st != "ok":
+                return (st, f"default of options.get({key!r}): {why}", nd)
+        convs = []
+        for f2 in corpus.all_functions():
+            if f2.is_lambda:
+                continue
+            for d in f2.local_nodes():
+                if isinstance(d, ast.Dict):
+                    for k_, v_ in zip(d.keys, d.values):
+                        if isinstance(k_, ast.Constant) and k_.value == key:
+                            convs.append((f2, v_))
+        if not convs:
+            return ("unknown", f"no option table declares {key!r}", e)
+        for f2, v_ in convs:
+            name = f2.module.resolve(dotted(v_) or "")
+            if name.rsplit(".", 1)[-1] in _NONNEG_CONVERTERS and "directives" in name:
+                continue
+            if name in ("int", "builtins.int", "float") or name.endswith(("directives.unchanged", "directives.unchanged_required")) or isinstance(v_, ast.Lambda):
+                return ("bad", f"option {key!r} is converted by `{short(v_, 40)}` ({f2.module.site(v_)}), which admits negative numbers", v_)
+            return ("unknown", f"converter `{short(v_, 40)}` of option {key!r} is not a known docutils converter", v_)
+        return ("ok", f"option {key!r} converted by a non-negative docutils converter", e)
+    if isinstance(e, ast.Name) and not fi.is_lambda:
+        bound_here = e.id in fi.params or any(isinstance(x, ast.Name) and x.id == e.id and isinstance(x.ctx, ast.Store) for x in fi.local_nodes())
+        if not bound_here and fi.parent_func is not None:
+            return _nonneg(corpus, e, fi.parent_func, attr, depth + 1)  # a variable of the enclosing function
+        if e.id in fi.params and not _rebound(fi, e.id):
+            a = fi.node.args
+            defaults: dict[str, ast.expr] = {}
+            for p_, d in zip(reversed(a.posonlyargs + a.args), reversed(a.defaults)):
+                defaults[p_.arg] = d
+            for p_, d in zip(a.kwonlyargs, a.kw_defaults):
+                if d is not None:
+                    defaults[p_.arg] = d
+            pos = [x.arg for x in a.posonlyargs + a.args]
+            g = get_callgraph(corpus)
+            sites = g.callers().get(fi.fq, [])
+            if e.id in defaults:
+                st, why, nd = _nonneg(corpus, defaults[e.id], fi, attr, depth + 1)
+                if st != "ok":
+                    return (st, f"default of parameter {e.id}: {why}", nd)
+            elif not sites:
+                return ("unknown", f"parameter {e.id} has no default and no caller in the package", e)
+            for caller, call in sites:
+                if any(isinstance(x, ast.Starred) for x in call.args) or any(k.arg is None for k in call.keywords):
+                    return ("unknown", f"{caller.qualname} passes arguments by unpacking", call)
+                ppos = pos[1:] if fi.cls is not None and isinstance(call.func, ast.Attribute) and "staticmethod" not in fi.decorators() else pos
+                bound = dict(zip(ppos, call.args))
+                for k in call.keywords:
+                    bound[k.arg] = k.value
+                if e.id in bound:
+                    st, why, nd = _nonneg(corpus, bound[e.id], caller, attr, depth + 1)
+                    if st != "ok":
+                        return (st, f"{caller.qualname} passes `{short(bound[e.id], 50)}`: {why}", nd if nd is not None else call)
+            return ("ok", "every caller passes a non-negative value", e)
+        defs = [n.value for n in fi.local_nodes() if isinstance(n, ast.Assign) and len(n.targets) == 1 and isinstance(n.targets[0], ast.Name) and n.targets[0].id == e.id]
+        others = [n for n in fi.local_nodes() if isinstance(n, ast.Name) and n.id == e.id and isinstance(n.ctx, ast.Store) and not (isinstance(parent(n), ast.Assign) and len(parent(n).targets) == 1)]
+        if defs and not others:
+            for d in defs:
+                st, why, nd = _nonneg(corpus, d, fi, attr, depth + 1)
+                if st != "ok":
+                    return (st, why, nd)
+            return ("ok", "every binding is non-negative", e)
+    if isinstance(e, ast.BinOp) and isinstance(e.op, ast.Add):
+        l, r = _nonneg(corpus, e.left, fi, attr, depth + 1), _nonneg(corpus, e.right, fi, attr, depth + 1)
+        if l[0] == "ok" and r[0] == "ok":
+            return ("ok", "sum of non-negative values", e)
+        return l if l[0] != "ok" else r
+    return ("unknown", f"`{short(e, 40)}` is not a modelled source of the heading offset", e)
+
+
+@rule("C01.R14")
+def r14_heading_offset(corpus: Corpus, rep: Report, tier: str):
+    rep.rule("C01.R14", "every value stored into the renderer's heading offset is non-negative (a heading level <= 0 has no parent level: max() of nothing -> ValueError)")
+    base = corpus.cls("mdit_to_docutils.base:DocutilsRenderer")
+    rh = corpus.func("mdit_to_docutils.base:DocutilsRenderer.render_heading")
+    attr = None
+    for n in rh.local_nodes():
+        if isinstance(n, ast.Assign) and len(n.targets) == 1 and isinstance(n.targets[0], ast.Name) and isinstance(n.value, ast.BinOp) and isinstance(n.value.op, ast.Add):
+            parts = [n.value.left, n.value.right]
+            if any(isinstance(p_, ast.Call) and dotted(p_.func) == "int" for p_ in parts):
+                for p_ in parts:
+                    if isinstance(p_, ast.Attribute) and isinstance(p_.value, ast.Name) and p_.value.id == "self":
+                        attr = p_.attr
+    if attr is None:
+        if any(isinstance(x, ast.BinOp) and isinstance(x.op, (ast.Add, ast.Sub)) for x in rh.local_nodes()):
+            rep.error("C01.R14", f"{rh.site()}: the heading level is computed in a way that is not `int(tag digit) + self.<offset>`")
+        else:
+            rep.ok("C01.R14", f"{rh.fq}|heading level", rh.site(), "the level is the tag digit, no offset is added")
+        return
+    # the consumer really needs level >= 1: a max()/min() over a filtered level table
+    usl = corpus.lookup_method(base, "update_section_level_state")
+    needs = usl is not None and any(isinstance(c, ast.Call) and dotted(c.func) in ("max", "min") and c.args and isinstance(c.args[0], (ast.GeneratorExp, ast.ListComp)) and c.args[0].generators[0].ifs and len(c.args) == 1 and not c.keywords for c in usl.local_nodes())
+    if not needs:
+        rep.ok("C01.R14", f"{rh.fq}|heading level", rh.site(), "no max()/min() over a filtered level table without default: levels <= 0 are harmless")
+        return
+    n = 0
+    hier = {ci.fq for ci in [base] + corpus.subclasses(base)}
+
+    def owner(f: FunctionInfo):
+        while f is not None and f.cls is None:
+            f = f.parent_func
+        return f.cls if f is not None else None
+
+    for f in corpus.all_functions():
+        if f.is_lambda or owner(f) is None or owner(f).fq not in hier:
+            continue
+        if True:
+            for st in f.local_nodes():
+                tg = st.targets[0] if isinstance(st, ast.Assign) and len(st.targets) == 1 else (st.target if isinstance(st, ast.AnnAssign) and st.value is not None else None)
+                if not (isinstance(tg, ast.Attribute) and tg.attr == attr and isinstance(tg.value, ast.Name) and tg.value.id == "self"):
+                    continue
+                n += 1
+                k = f"{f.fq}|self.{attr} = {short(st.value, 40)}"
+                status, why, nd = _nonneg(corpus, st.value, f, attr)
+                if status == "ok":
+                    rep.ok("C01.R14", k, f.module.site(st), why)
+                elif status == "bad":
+                    rep.violation(
+                        "C01.R14",
+                        k,
+                        f.module.site(st),
+                        f"the heading offset may become negative: {why}; `{attr}` is added to the tag digit in render_heading and a level <= 0 makes "
+                        "update_section_level_state() take max() of an empty sequence (ValueError out of the parse)",
+                    )
+                else:
+                    rep.error("C01.R14", f"{f.module.site(st)}: `{short(st, 50)}`: {why}")
+    rep.expect_min("C01.R14", 2, "stores to the heading offset")
+
+
+# ---------------------------------------------------------------------------
+# R15 values of docutils' name registry may be None
+#
+# ``document.nameids[name]`` is None for a name that was defined twice (docutils stores None to invalidate it).  Such a
+# value must be None-tested before it is used as a key of ``document.ids`` - ``ids[None]`` raises KeyError,
+# ``ids.get(None)`` gives None and the node dereferenced afterwards raises AttributeError.
+
+
+def _registry_read(e: ast.AST, reg: str) -> bool:
+    if isinstance(e, ast.Subscript) and isinstance(e.ctx, ast.Load) and (dotted(e.value) or "").split(".")[-1] == reg:
+        return True
+    return isinstance(e, ast.Call) and isinstance(e.func, ast.Attribute) and e.func.attr == "get" and (dotted(e.func.value) or "").split(".")[-1] == reg
+
+
+def _none_tested(fi: FunctionInfo, use: ast.AST, names: set[str]) -> bool:
+    for t, pol in _facts_at(fi, use):
+        if isinstance(t, ast.Name) and t.id in names and pol:
+            return True
+        if isinstance(t, ast.Compare) and len(t.ops) == 1 and isinstance(t.left, ast.Name) and t.left.id in names and isinstance(t.comparators[0], ast.Constant) and t.comparators[0].value is None:
+            if (isinstance(t.ops[0], ast.IsNot) and pol) or (isinstance(t.ops[0], ast.Is) and not pol):
+                return True
+        if isinstance(t, ast.Call) and dotted(t.func) == "isinstance" and t.args and isinstance(t.args[0], ast.Name) and t.args[0].id in names and pol:
+            return True
+    return _inside_broad_try(use, False)
+
+
+@rule("C01.R15")
+def r15_registry_none(corpus: Corpus, rep: Report, tier: str):
+    rep.rule("C01.R15", "a value read from document.nameids (None for duplicated names) is None-tested before it keys document.ids")
+    nm = corpus.sibling("docutils/nodes.py")
+    stores_none = any(
+        isinstance(n, ast.Assign) and isinstance(n.value, ast.Constant) and n.value.value is None and any(isinstance(t, ast.Subscript) and (dotted(t.value) or "").endswith("nameids") for t in n.targets)
+        for n in ast.walk(nm.tree)
+    )
+    if not stores_none:
+        rep.note("docutils no longer stores None into document.nameids: C01.R15 has nothing to require")
+        rep.ok("C01.R15", "docutils.nodes|nameids values", "docutils/nodes.py", "nameids values are never None")
+        return
+    n = 0
+    for fi in corpus.all_functions():
+        if fi.is_lambda:
+            continue
+        cfg = None
+        for src in fi.local_nodes():
+            if not _registry_read(src, "nameids"):
+                continue
+            p_ = parent(src)
+            holders: set[str] = set()
+            direct_uses: list[ast.AST] = []
+            if isinstance(p_, ast.Assign) and p_.value is src and len(p_.targets) == 1 and isinstance(p_.targets[0], ast.Name):
+                holders.add(p_.targets[0].id)
+                def_stmt = p_
+            elif isinstance(p_, ast.Subscript) and p_.slice is src and (dotted(p_.value) or "").split(".")[-1] == "ids":
+                direct_uses.append(p_)
+                def_stmt = None
+            elif isinstance(p_, ast.Call) and src in p_.args and _registry_read(p_, "ids"):
+                direct_uses.append(p_)
+                def_stmt = None
+            else:
+                continue
+            n += 1
+            k = f"{fi.fq}|{short(src, 50)}"
+            site = fi.module.site(src)
+            cfg = cfg or get_cfg(fi)
+            problem = None
+            uses = list(direct_uses)
+            for h in holders:
+                for u in fi.local_nodes():
+                    if isinstance(u, ast.Name) and u.id == h and isinstance(u.ctx, ast.Load):
+                        q = parent(u)
+                        if (isinstance(q, ast.Subscript) and q.slice is u and (dotted(q.value) or "").split(".")[-1] == "ids") or (isinstance(q, ast.Call) and u in q.args and _registry_read(q, "ids")):
+                            # the binding must reach this use
+                            other_defs = [cfg.stmt_of(x) for x in fi.local_nodes() if isinstance(x, ast.Name) and x.id == h and isinstance(x.ctx, ast.Store) and cfg.stmt_of(x) is not def_stmt]
+                            if cfg.paths_avoiding(def_stmt, cfg.stmt_of(u), lambda nd: any(nd is o for o in other_defs)):
+                                uses.append(q)
+            for q in uses:
+                keyname = {x.id for x in ast.walk(q.slice if isinstance(q, ast.Subscript) else q.args[0]) if isinstance(x, ast.Name)}
+                if holders and _none_tested(fi, q, holders):
+                    continue
+                if isinstance(q, ast.Subscript):
+                    problem = (q, f"`{short(q, 50)}` is evaluated with a registry value that may be None (duplicated explicit target): KeyError: None")
+                    break
+                # ids.get(v): the result is None for v None -> its dereferences must be None-tested
+                qp = parent(q)
+                if isinstance(qp, ast.Assign) and qp.value is q and len(qp.targets) == 1 and isinstance(qp.targets[0], ast.Name):
+                    w = qp.targets[0].id
+                    other_defs = [cfg.stmt_of(x) for x in fi.local_nodes() if isinstance(x, ast.Name) and x.id == w and isinstance(x.ctx, ast.Store) and cfg.stmt_of(x) is not qp]
+                    for u in sorted((x for x in fi.local_nodes() if isinstance(x, ast.Name) and x.id == w and isinstance(x.ctx, ast.Load)), key=lambda x: (x.lineno, x.col_offset)):
+                        d = parent(u)
+                        if not ((isinstance(d, (ast.Attribute, ast.Subscript)) and d.value is u) or (isinstance(d, (ast.For, ast.comprehension)) and d.iter is u)):
+                            continue
+                        if not cfg.paths_avoiding(qp, cfg.stmt_of(u), lambda nd: any(nd is o for o in other_defs)) and cfg.stmt_of(u) is not qp:
+                            continue
+                        if _none_tested(fi, u, {w}):
+                            continue
+                        problem = (u, f"`{short(q, 50)}` gives None when the registry value is None (duplicated explicit target), and `{short(d, 40)}` dereferences it without a None test: AttributeError/TypeError")
+                        break
+                elif isinstance(qp, (ast.Attribute, ast.Subscript)) and qp.value is q:
+                    problem = (q, f"`{short(qp, 50)}` dereferences the result of ids.get() of a registry value that may be None")
+                if problem:
+                    break
+            if problem:
+                rep.violation("C01.R15", k, fi.module.site(problem[0]), problem[1])
+            else:
+                rep.ok("C01.R15", k, site, "None-tested before it keys document.ids" if uses else "not used as a key of document.ids")
+    rep.expect_min("C01.R15", 1, "reads of document.nameids")
+
+
 RULES = [
     r1_failure_mode_closure, r2_token_line, r3_html_attr_none, r4_reentry_guards, r5_loop_progress, r6_yaml_narrowing, r7_single_registration,
     r8_nullable_env_slots, r9_document_attributes, r10_config_divisors, r11_disable_syntax, r12_handler_attributes, r13_rebound_loop_key,
+    r14_heading_offset, r15_registry_none,
 ]
 
 
@@ -2744,6 +3069,66 @@ def mutants(corpus: Corpus):
     v_ = flds.get("disable_syntax", {}).get("validator")
     if v_ is not None and _validator_rejects(corpus, v_, lambda t: _mentions_const(t, "paragraph"), lambda x: x != "paragraph"):
         out.append(Mutant("c01-disable-syntax-validator-weakened", "C01.R11", cm.rel, splice(cm.src, v_, "deep_iterable(instance_of(str), instance_of((list, tuple)))"), expect="disable(<"))
+    # --- the NUL repair (1efe2fa) reverted at its three sites: relfn2path / download_reference of percent-decoded text ---
+    sx_ = corpus.mod("mdit_to_docutils.sphinx_")
+    for q, tag in (("SphinxRenderer.render_link_project", "project"), ("SphinxRenderer.render_link_unknown", "unknown")):
+        f = sx_.func(q)
+        tr_ = find_node(f, lambda n: isinstance(n, ast.Try) and any(isinstance(c, ast.Call) and isinstance(c.func, ast.Attribute) and c.func.attr == "relfn2path" for b in n.body for c in ast.walk(b)))
+        if tr_ is not None:
+            out.append(Mutant(f"c01-relfn2path-try-dropped-{tag}", "C01.R1", sx_.rel, unwrap_try(f, tr_), expect="relfn2path(", canary=(tag == "project")))
+        else:
+            out.append((f"c01-relfn2path-try-dropped-{tag}", f"{q}: relfn2path is not inside a try"))
+    f = sx_.func("SphinxRenderer.render_link_path")
+    iff = find_node(f, lambda n: isinstance(n, ast.If) and isinstance(n.test, ast.Compare) and isinstance(n.test.left, ast.Constant) and n.test.left.value == "\x00")
+    if iff is not None:
+        out.append(Mutant("c01-download-target-nul-test-dropped", "C01.R1", sx_.rel, splice(sx_.src, iff.test, "False"), expect="download_reference("))
+    else:
+        out.append(("c01-download-target-nul-test-dropped", "render_link_path has no NUL test"))
+    # --- include cycle guard keyed by a path that is not normalised (R4) ---
+    f = mk.func("MockIncludeDirective.run")
+    npc = find_node(f, lambda n: isinstance(n, ast.Call) and (dotted(n.func) or "").endswith("normpath") and isinstance(parent(n), ast.Assign) and isinstance(parent(n).targets[0], ast.Name))
+    if npc is not None and npc.args:
+        out.append(Mutant("c01-include-key-not-normalised", "C01.R4", mk.rel, splice(mk.src, npc, f"str({unparse(npc.args[0])})"), expect="not a normalised path"))
+        out.append(Mutant("c01-include-key-fspath", "C01.R4", mk.rel, splice(mk.src, npc, f"os.fspath({unparse(npc.args[0])})"), expect="not a normalised path"))
+    else:
+        out.append(("c01-include-key-not-normalised", "the include key is not computed by normpath(...) into a local"))
+    # --- heading offset may become negative (R14) ---
+    f = base.func("DocutilsRenderer.run_directive")
+    conv = None
+    for d_ in f.local_nodes():
+        if isinstance(d_, ast.Dict):
+            for k_, v_ in zip(d_.keys, d_.values):
+                if isinstance(k_, ast.Constant) and k_.value == "heading-offset":
+                    conv = v_
+    if conv is not None:
+        out.append(Mutant("c01-heading-offset-converter-int", "C01.R14", base.rel, splice(base.src, conv, "int"), expect="_heading_offset", canary=True))
+        out.append(Mutant("c01-heading-offset-converter-lambda", "C01.R14", base.rel, splice(base.src, conv, "lambda v: int(v)"), expect="_heading_offset"))
+    else:
+        out.append(("c01-heading-offset-converter-int", "no 'heading-offset' entry in run_directive's option table"))
+    f = mk.func("MockIncludeDirective.run")
+    og = find_node(f, lambda n: isinstance(n, ast.Call) and isinstance(n.func, ast.Attribute) and n.func.attr == "get" and n.args and isinstance(n.args[0], ast.Constant) and n.args[0].value == "heading-offset" and len(n.args) == 2)
+    if og is not None:
+        out.append(Mutant("c01-heading-offset-default-negative", "C01.R14", mk.rel, splice(mk.src, og.args[1], "-1"), expect="_heading_offset"))
+    else:
+        out.append(("c01-heading-offset-default-negative", "the include mock does not read options.get('heading-offset', d)"))
+    # --- registry value None used as a key of document.ids (R15) ---
+    tm_ = corpus.mod("mdit_to_docutils.transforms")
+    f = tm_.func("ResolveAnchorIds.apply")
+    tests = [n for n in f.local_nodes() if isinstance(n, ast.If) and isinstance(n.test, ast.Compare) and isinstance(n.test.ops[0], ast.Is) and isinstance(n.test.comparators[0], ast.Constant) and n.test.comparators[0].value is None and isinstance(n.test.left, ast.Name)]
+    sub_ = find_node(f, lambda n: isinstance(n, ast.Subscript) and isinstance(n.ctx, ast.Load) and unparse(n.value).endswith("document.ids"))
+    if tests and sub_ is not None:
+        src_ = tm_.src
+        for t_ in sorted(tests, key=lambda n: -n.lineno):
+            src_ = splice(src_, t_.test, "False")
+        out.append(Mutant("c01-duplicate-name-skip-dropped", "C01.R15", tm_.rel, src_, expect="nameids"))
+        src2 = splice(tm_.src, sub_, f"{unparse(sub_.value)}.get({unparse(sub_.slice)})")
+        # (the subscript comes after the tests: splice the later node first)
+        src2 = tm_.src
+        for node_, text_ in sorted([(sub_, f"{unparse(sub_.value)}.get({unparse(sub_.slice)})")] + [(t_.test, "False") for t_ in tests], key=lambda p_: -p_[0].lineno):
+            src2 = splice(src2, node_, text_)
+        out.append(Mutant("c01-duplicate-name-lookup-by-get", "C01.R15", tm_.rel, src2, expect="nameids"))
+    else:
+        out.append(("c01-duplicate-name-skip-dropped", "ResolveAnchorIds.apply: None tests / ids[...] not found"))
     # --- attributes read from a caught exception (R12) ---
     f = base.func("DocutilsRenderer.get_inventory_matches")
     h = find_node(f, lambda n: isinstance(n, ast.ExceptHandler) and n.name and n.type is not None and unparse(n.type) == "Exception")
